@@ -2557,7 +2557,7 @@ def geo_of(cfg):
     off = 8 + idb
     off = (off + lenb - 1) // lenb * lenb
     off += lenb
-    return (cap, init, idb, off + 1)
+    return (cap, init, idb, off + 1, 2 ** (8 * lenb) - 1)
 
 
 class HistSuite(Suite):
@@ -2755,7 +2755,7 @@ class DeserShareSuite(HistSuite):
             for fk in range(0, 6):
                 for fmt, data in inputs:
                     for linked in (False, True):
-                        ops = ["reset", "geo %d %d %d %d" % geo[:4], "root 0 0", "toarr 1 0", "add 1 %s 6b" % ("sl 3" if False else ("sjl" if linked else "sc"))]
+                        ops = ["reset", "geo %d %d %d %d %d" % geo[:5], "root 0 0", "toarr 1 0", "add 1 %s 6b" % ("sl 3" if False else ("sjl" if linked else "sc"))]
                         ops += ["add 1 i %d" % i for i in range(fill)]
                         ops += ["addv 2 1", "obs 0 1 2"]
                         if fk:
@@ -2776,7 +2776,7 @@ class FlagTravelSuite(HistSuite):
         for fk in (1, 2, 3):
             for filler in (0, 2, 7):
                 for second in ("swapdoc 0 1", "swapdoc 1 0", "copydoc 1 0", "copydoc 0 1", "swapdoc 0 0"):
-                    ops = ["reset", "geo %d %d %d %d" % geo[:4], "root 0 0", "toarr 1 0", "root 2 1", "toobj 3 2", "setm 3 6b i 5"]
+                    ops = ["reset", "geo %d %d %d %d %d" % geo[:5], "root 0 0", "toarr 1 0", "root 2 1", "toobj 3 2", "setm 3 6b i 5"]
                     ops += ["add 1 i %d" % i for i in range(filler)]
                     ops += ["failat 0 %d" % fk, "add 1 sc 68656c6c6f20776f726c64", "add 1 d 3fb999999999999a", "add 1 sc 7878", "nofail 0", "obs 0 1 2 3",
                             second, "obs", "root 4 0", "root 5 1", "add 4 sc 6162", "setm 5 7a sc 6364", "obs 4 5", "copydoc 2 0", "copydoc 2 1", "obs", "cleardoc 0", "cleardoc 1", "root 4 0", "add 4 sc 6162", "obs 4",
@@ -2795,7 +2795,7 @@ class LimitSuite(HistSuite):
         if limit > (70000 if tier == "thorough" else 1000):
             return self.refcount_cases(geo) + self.strlimit_cases(geo)
         for extra in (0, 1, 5):
-            ops = ["reset", "geo %d %d %d %d" % geo[:4], "root 0 0", "toarr 1 0"]
+            ops = ["reset", "geo %d %d %d %d %d" % geo[:5], "root 0 0", "toarr 1 0"]
             n = limit + extra
             for i in range(n):
                 ops.append("add 1 i %d" % i)
@@ -2834,7 +2834,7 @@ class LimitSuite(HistSuite):
         E = []
         n = 8 * geo[0] * geo[1] + 6
         for k in range(1, 16):
-            ops = ["reset", "geo %d %d %d %d" % geo[:4], "root 0 0", "toarr 1 0", "failat 0 %d" % k]
+            ops = ["reset", "geo %d %d %d %d %d" % geo[:5], "root 0 0", "toarr 1 0", "failat 0 %d" % k]
             ops += ["add 1 i %d" % i for i in range(n)]
             ops += ["obs 0 1", "nofail 0", "add 1 i 777", "add 1 sc 6162", "obs 0 1", "hser 0", "remi 1 0", "obs 0 1", "cleardoc 0", "root 0 0", "toarr 1 0"]
             ops += ["add 1 i %d" % i for i in range(n)]
@@ -2856,7 +2856,7 @@ class LimitSuite(HistSuite):
 
         def step(op, want=None, has=None, hasnot=None):
             E.append(Case(op, exp=None, limit=10 ** 9, nocompare=True, want=want, has=has, hasnot=hasnot))
-        step("reset"); step("geo %d %d %d %d" % geo[:4])
+        step("reset"); step("geo %d %d %d %d %d" % geo[:5])
         step("root 0 0"); step("set 0 sc " + ok, want="1"); step("obs 0", has="obs S" + ok + " n=0 z=0 o=0 ;")
         step("set 0 sc " + bad, want="0"); step("obs 0", has="obs N n=0 z=0 o=1 ;")
         step("cleardoc 0"); step("root 0 0"); step("set 0 raw " + bad, want="0"); step("obs 0", has="obs N n=0 z=0 o=1 ;")
@@ -2878,7 +2878,7 @@ class LimitSuite(HistSuite):
     def refcount_cases(self, geo):
         """many values sharing one copied string (the reference counter is as wide as a slot id): the string must survive until its last user goes"""
         n = getattr(self, "users", 300)
-        ops = ["reset", "geo %d %d %d %d" % geo[:4], "root 0 0", "toarr 1 0"]
+        ops = ["reset", "geo %d %d %d %d %d" % geo[:5], "root 0 0", "toarr 1 0"]
         for i in range(n):
             ops.append("add 1 sc 7368617265642d737472696e67")
             if i in (254, 255, 256, 257):
